@@ -40,3 +40,25 @@ func vC02(widths string) {
 		vReach("decoded")
 	}
 }
+
+func init() { vReg("H_C02_truncated", H_C02_truncated) }
+
+// A stream that ends before the first frame is complete (0..2 arbitrary bytes,
+// then EOF): reading the request fails without panicking, whatever the bytes.
+func H_C02_truncated() {
+	nc := vNetConn("c")
+	n := vLen("nbytes", 2)
+	b0, b1 := vU64("b0"), vU64("b1")
+	vAssume(b0 < 256 && b1 < 256)
+	// two bytes form a complete (empty) element only if the second is a zero length
+	vAssume(b1 != 0)
+	raw := string([]byte{byte(b0), byte(b1)}[:n])
+	vConnFeedRaw(nc, raw)
+	c, err := newConn(context.Background(), 1, nc, vLoggerAt(vBool("debugLogging")), vMux())
+	if err != nil {
+		return
+	}
+	r, err := c.readRequest(1)
+	vAssert(err != nil && r == nil, "a truncated stream is a read error, not a request")
+	vReach("truncated")
+}
